@@ -148,7 +148,14 @@ func newPair(sc codecScenario) codecPair {
 func soloResults(sc codecScenario) []string {
 	out := make([]string, len(sc.calls))
 	for i, call := range sc.calls {
-		out[i] = call(newPair(sc)) // pass-through mode: no execution is active
+		func() {
+			defer func() {
+				if e := recover(); e != nil {
+					out[i] = fmt.Sprintf("PANIC-ALONE: %v", e)
+				}
+			}()
+			out[i] = call(newPair(sc)) // pass-through mode: no execution is active
+		}()
 	}
 	return out
 }
@@ -192,6 +199,13 @@ func judgeCodecSchedule(x *verifrt.Exec, got, want []string) (string, string) {
 func exploreCodec(name string, o verifrt.Options, c *sched.Collector) verifrt.Stats {
 	sc := findCodecScenario(name)
 	want := soloResults(sc)
+	for i, w := range want {
+		if strings.HasPrefix(w, "PANIC-ALONE") {
+			// a call that panics on its own is a violation whatever the schedule; there is nothing to compare
+			c.Fail("overlapping-calls/call-panics-alone", fmt.Sprintf("call %d of scenario %s panics when made alone: %s", i+1, name, w), SchedCase{"codec-schedule", name, nil})
+			return verifrt.Stats{Executions: 1}
+		}
+	}
 	return verifrt.Explore(o, func() (func(), func(*verifrt.Exec)) {
 		got := make([]string, len(sc.calls))
 		pair := newPair(sc)
